@@ -265,12 +265,39 @@ impl Image {
     }
 }
 
-/// One character per I/O event: L/l = log write/sync, t = log truncate, D/d = database write/sync, T = database set_len.
+/// The files as of the first `k` events under the second crash model: of every file, only what had been written
+/// (or cut) before its last fsync within the prefix is there; creation and removal of files are kept.
+fn strict_image(events: &[IoEvent], k: usize) -> Image {
+    let mut last_sync: BTreeMap<String, usize> = BTreeMap::new();
+    for (i, e) in events[..k].iter().enumerate() {
+        if let IoEvent::Sync(p) = e {
+            last_sync.insert(fname(p), i);
+        }
+    }
+    let mut img = Image::default();
+    for (i, e) in events[..k].iter().enumerate() {
+        let keep = match e {
+            IoEvent::Write { path, .. } | IoEvent::SetLen { path, .. } => last_sync.get(&fname(path)).is_some_and(|&j| i < j),
+            _ => true,
+        };
+        if keep {
+            img.apply(e);
+        }
+    }
+    img
+}
+
+/// One character per I/O event: L/l = log write/sync, t = log truncate, D/d = database write/sync, T = database set_len,
+/// J/j = journal write/sync, u = journal set_len.
 fn ev_char(e: &IoEvent) -> Option<char> {
+    let kind = |p: &Path| {
+        let n = fname(p);
+        if n.ends_with(".log") { 0 } else if n.ends_with(".journal") { 1 } else { 2 }
+    };
     match e {
-        IoEvent::Write { path, .. } => Some(if fname(path).ends_with(".log") { 'L' } else { 'D' }),
-        IoEvent::Sync(p) => Some(if fname(p).ends_with(".log") { 'l' } else { 'd' }),
-        IoEvent::SetLen { path, .. } => Some(if fname(path).ends_with(".log") { 't' } else { 'T' }),
+        IoEvent::Write { path, .. } => Some(['L', 'J', 'D'][kind(path)]),
+        IoEvent::Sync(p) => Some(['l', 'j', 'd'][kind(p)]),
+        IoEvent::SetLen { path, .. } => Some(['t', 'u', 'T'][kind(path)]),
         IoEvent::Create(_) => Some('C'),
         IoEvent::Remove(_) => Some('R'),
         IoEvent::Mark(_) => None,
@@ -541,6 +568,8 @@ fn run_case(line: &str) -> String {
     let mut groups: Vec<(usize, usize, String)> = Vec::new();
     let mut call_at: usize = 0; // index of the latest `call` mark
     let mut nest_budget: usize = std::env::var("AXH_CRASH_NEST").ok().and_then(|s| s.parse().ok()).unwrap_or(8);
+    let mut strict_budget: usize = std::env::var("AXH_CRASH_STRICT").ok().and_then(|s| s.parse().ok()).unwrap_or(45);
+    let mut strict_groups: Vec<(usize, String)> = Vec::new();
     for &k in &points {
         while applied < k {
             let e = &events[applied];
@@ -600,17 +629,92 @@ fn run_case(line: &str) -> String {
             Some((_, b, d)) if *d == desc => *b = k,
             _ => groups.push((k, k, desc)),
         }
+        // second crash model: nothing written since the file's last fsync survives (the first one keeps every write)
+        if strict_budget > 0 {
+            let simg = strict_image(&events, k);
+            if simg.files != img.files {
+                strict_budget -= 1;
+                let pr = observe_image(&simg, &tables, cfg, false);
+                let acked_s = if acked.is_empty() { "-".to_string() } else { acked.iter().map(|u| u.to_string()).collect::<Vec<_>>().join(",") };
+                strict_groups.push((
+                    k,
+                    format!(
+                        "acked={} infl={} ph={} open={} T={} again={} probe={} nest=-",
+                        acked_s,
+                        inflight.map(|u| u.to_string()).unwrap_or_else(|| "-".into()),
+                        ph,
+                        pr.open,
+                        if pr.tables.is_empty() { "-".into() } else { pr.tables },
+                        pr.again,
+                        pr.probe
+                    ),
+                ));
+            }
+        }
     }
     let _ = std::fs::remove_dir_all(&dir);
 
     // ---- abstract I/O trace for the protocol rules: L=log write, l=log sync, t=log truncate, D=db write, d=db sync,
     //      (i / )i = call / ack of op i
+    //      journal protocol (tokens carry page numbers; a page size is the length of the first database write):
+    //      D<p> = database page write, T<n> = database cut to n pages, Ja<b> = journal started for a checkpoint of b pages,
+    //      J<p>= / J<p>! = checkpointed contents of page p saved (equal / not equal to the file at the last `Ja`),
+    //      Jd = journal marked done, j = journal sync, u = journal emptied
     let mut trace = String::new();
+    let mut img = Image::default();
+    let mut ckpt_db: Vec<u8> = Vec::new();
+    let mut page_size: usize = 0;
+    let db_name = events
+        .iter()
+        .find_map(|e| if let IoEvent::Create(p) = e { Some(fname(p)) } else { None })
+        .unwrap_or_default();
     for e in &events {
         match e {
-            IoEvent::Write { path, .. } => trace.push(if fname(path).ends_with(".log") { 'L' } else { 'D' }),
-            IoEvent::Sync(p) => trace.push(if fname(p).ends_with(".log") { 'l' } else { 'd' }),
-            IoEvent::SetLen { path, .. } => trace.push(if fname(path).ends_with(".log") { 't' } else { 'T' }),
+            IoEvent::Write { path, offset, data } => {
+                let n = fname(path);
+                if n.ends_with(".log") {
+                    trace.push('L');
+                } else if n.ends_with(".journal") {
+                    if *offset == 0 && data.len() == 32 {
+                        let base = u64::from_le_bytes(data[24..32].try_into().unwrap());
+                        trace.push_str(&format!("Ja{}", base));
+                        ckpt_db = img.files.get(&db_name).cloned().unwrap_or_default();
+                    } else if *offset == 8 && data.len() == 8 {
+                        trace.push_str("Jd");
+                    } else if data.len() >= 16 {
+                        let pg = u64::from_le_bytes(data[0..8].try_into().unwrap()) as usize;
+                        let body = &data[16..];
+                        let same = page_size > 0
+                            && body.len() == page_size
+                            && ckpt_db.get(pg * page_size..(pg + 1) * page_size) == Some(body);
+                        trace.push_str(&format!("J{}{}", pg, if same { '=' } else { '!' }));
+                    } else {
+                        trace.push_str("J?");
+                    }
+                } else {
+                    if page_size == 0 {
+                        page_size = data.len();
+                    }
+                    let ps = page_size.max(1);
+                    for k in 0..(data.len() / ps).max(1) {
+                        trace.push_str(&format!("D{}", *offset as usize / ps + k));
+                    }
+                }
+            }
+            IoEvent::Sync(p) => {
+                let n = fname(p);
+                trace.push(if n.ends_with(".log") { 'l' } else if n.ends_with(".journal") { 'j' } else { 'd' })
+            }
+            IoEvent::SetLen { path, len } => {
+                let n = fname(path);
+                if n.ends_with(".log") {
+                    trace.push('t')
+                } else if n.ends_with(".journal") {
+                    trace.push('u')
+                } else {
+                    trace.push_str(&format!("T{}", *len as usize / page_size.max(1)))
+                }
+            }
             IoEvent::Create(_) => trace.push('C'),
             IoEvent::Remove(_) => trace.push('R'),
             IoEvent::Mark(m) => {
@@ -622,10 +726,14 @@ fn run_case(line: &str) -> String {
                 }
             }
         }
+        img.apply(e);
     }
     let mut out = format!("run={} live={}", results.join(","), if live.is_empty() { "-".into() } else { live });
     for (a, b, d) in groups {
         out.push_str(&format!(" | k={}-{} {}", a, b, d));
+    }
+    for (k, d) in strict_groups {
+        out.push_str(&format!(" | k=s{}-s{} {}", k, k, d));
     }
     out.push_str(&format!(" ## points={} events={} trace={}", points.len(), events.len(), trace));
     out
@@ -668,7 +776,7 @@ impl Engine for CrashEngine {
 ///   no_init_ckpt  no checkpoint after the CREATE TABLEs (the log reaches back to table creation)
 ///   drop_table    DROP TABLE and re-CREATE
 ///   vacuum        VACUUM in the middle
-///   small_cache   a cache small enough to evict (steal) — cache=48
+///   steal         wide rows and a cache of 8-16 frames: dirty pages are evicted (written in place) between checkpoints
 ///   big_log       wide rows and 60–120 steps: the log spans several blocks between checkpoints
 fn gen_workload(rng: &mut Rng, _head: &str, idx: usize) -> (Vec<Op>, Vec<String>, usize) {
     let family = match idx % 10 {
@@ -678,24 +786,26 @@ fn gen_workload(rng: &mut Rng, _head: &str, idx: usize) -> (Vec<Op>, Vec<String>
         6 => "no_init_ckpt",
         7 => "drop_table",
         8 => "vacuum",
-        _ => if idx % 20 == 9 { "small_cache" } else { "big_log" },
+        // steal: wide rows and a cache of a few frames, so that dirty pages are evicted (written in place) between checkpoints
+        _ => if idx % 20 == 9 { "steal" } else { "big_log" },
     };
     let mut ops = Vec::new();
     let mut tags: Vec<String> = vec![format!("0fam_{}", family)];
     let ntables = 1 + rng.below(2) as usize;
     // big_log: wide rows (table names starting with `w`), so that the log spans several blocks between checkpoints
-    let prefix = if family == "big_log" { "w" } else { "t" };
+    let wide = family == "big_log" || family == "steal";
+    let prefix = if wide { "w" } else { "t" };
     let tables: Vec<String> = (1..=ntables).map(|i| format!("{}{}", prefix, i)).collect();
     for t in &tables {
-        ops.push(Op::Auto(if family == "big_log" { Dml::CrtW(t.clone()) } else { Dml::Crt(t.clone()) }));
+        ops.push(Op::Auto(if wide { Dml::CrtW(t.clone()) } else { Dml::Crt(t.clone()) }));
     }
     if family != "no_init_ckpt" {
         ops.push(Op::Flush);
     }
     let mut next_id: BTreeMap<String, i64> = tables.iter().map(|t| (t.clone(), 1)).collect();
     let mut live: BTreeMap<String, Vec<i64>> = tables.iter().map(|t| (t.clone(), vec![])).collect();
-    let long = idx % 4 == 0 || family == "small_cache";
-    let steps = if family == "big_log" { 60 + rng.below(60) as usize } else { 4 + rng.below(if long { 40 } else { 10 }) as usize };
+    let long = idx % 4 == 0;
+    let steps = if wide { 60 + rng.below(60) as usize } else { 4 + rng.below(if long { 40 } else { 10 }) as usize };
     let mut sess = 0u32;
     let mut special_done = false;
     for step in 0..steps {
@@ -818,7 +928,7 @@ fn gen_workload(rng: &mut Rng, _head: &str, idx: usize) -> (Vec<Op>, Vec<String>
                 // a failing autocommit statement, of several kinds (each must leave no trace, also in the log replay)
                 match rng.below(3) {
                     0 => ops.push(Op::Auto(Dml::Ins("nosuch".into(), 1, 1))),
-                    1 => ops.push(Op::Auto(if family == "big_log" { Dml::CrtW(t.clone()) } else { Dml::Crt(t.clone()) })), // already exists
+                    1 => ops.push(Op::Auto(if wide { Dml::CrtW(t.clone()) } else { Dml::Crt(t.clone()) })), // already exists
                     _ => ops.push(Op::Auto(Dml::Drp("nosuch".into()))),
                 }
                 tags.push("failed_stmt".into());
@@ -836,7 +946,7 @@ fn gen_workload(rng: &mut Rng, _head: &str, idx: usize) -> (Vec<Op>, Vec<String>
     }
     tags.sort();
     tags.dedup();
-    let cache = if family == "small_cache" { 48 } else { 10000 };
+    let cache = if family == "steal" { 8 + 4 * rng.below(3) as usize } else { 10000 };
     (ops, tags, cache)
 }
 
